@@ -135,7 +135,10 @@ var oddNames = []string{"select", "FROM", "time", "my db", "a.b", "q\"uote", "ba
 	// format directives, invisible and unusual code points, reserved system names
 	"usage%", "a%%", "%d", "%s%v", "\uFEFFbom", "a\uFEFFb", "nb\u00a0sp", "ls\u2028x", "zw\u200bx", "\uFFFD", "_series", "_fieldKeys", "_measurements", "_tagKeys", "_name",
 	// words the scanner reads as tokens that are not in the keyword block: literals and operators
-	"true", "False", "and", "OR", "Time", "TIME", "now", "now()"}
+	"true", "False", "and", "OR", "Time", "TIME", "now", "now()",
+	// letters whose lower-case form is longer in UTF-8 than they are (U+023A, U+023E: two bytes become three), in names of
+	// every length up to a few machine words
+	"Ⱥ", "ȺȺȺȺȺȺ", "ȾȺȾȺȾȺȾȺ", "aȺȺȺȺȺȺȺ", "ȺȺȺȺȺȺȺȺȺȺȺȺȺȺȺȺ", "İİİİİİİİ", "KKKKKKKK"}
 
 func (g *gen) name() string {
 	if g.r.chance(3, 4) {
